@@ -827,3 +827,77 @@ func init() {
 		c.Check(n >= 3, fk+" :: default substitutions found", w.pos(f.Pos()), ">= 3", fmt.Sprintf("%d", n))
 	})
 }
+
+// ------------------------------------------------------------------ C17.R10
+// F23: State.LastCommit is a nil vote set at the chain's initial height. Some VoteSet methods answer for a
+// nil receiver (Size, HasTwoThirdsMajority, …: they start with `if voteSet == nil { return … }`), the others
+// panic on it (explicitly, or by dereferencing). A call of one of the others on LastCommit is reachable from
+// peer input (a precommit for the height before the initial one) unless it is behind a non-nil test; the
+// panic unwinds the consensus routine, which is not in the connection's recover domain.
+func init() {
+	register("C17", "R10", "K1", "the last commit (nil at the initial height) is only used through nil-safe methods unless it was tested for nil", 3, func(c *Ctx) {
+		w := c.W
+		nilSafe := func(m *ssa.Function) bool {
+			if m == nil || len(m.Blocks) == 0 || len(m.Params) == 0 {
+				return false
+			}
+			b := m.Blocks[0]
+			ifi, ok := b.Instrs[len(b.Instrs)-1].(*ssa.If)
+			if !ok {
+				return false
+			}
+			a := normCond(ifi.Cond, true)
+			if !(a.Kind == "nil" || a.Kind == "nonnil") || stripConv(a.V) != ssa.Value(m.Params[0]) {
+				return false
+			}
+			nilSucc := b.Succs[0]
+			if a.Kind == "nonnil" {
+				nilSucc = b.Succs[1]
+			}
+			// the nil branch returns (it neither panics nor touches the receiver)
+			for _, in := range nilSucc.Instrs {
+				if _, isPanic := in.(*ssa.Panic); isPanic {
+					return false
+				}
+			}
+			_, isRet := nilSucc.Instrs[len(nilSucc.Instrs)-1].(*ssa.Return)
+			return isRet
+		}
+		k := newKeyer()
+		n, nSafe := 0, 0
+		for _, f := range w.Funcs {
+			if !strings.HasPrefix(relPkg(f), "consensus") || strings.HasSuffix(w.Fset.Position(f.Pos()).Filename, "_test.go") {
+				continue
+			}
+			for _, call := range rawCallsOf(f) {
+				m := staticCallee(call)
+				if m == nil || !isMethodOf(m, "types", "VoteSet") || call.Common().IsInvoke() || len(call.Common().Args) == 0 {
+					continue
+				}
+				recv := w.expr(call.Common().Args[0])
+				if !strings.HasSuffix(strings.ReplaceAll(recv, ".RoundState.", "."), ".LastCommit") {
+					continue
+				}
+				if nilSafe(m) {
+					nSafe++
+					continue
+				}
+				n++
+				c.guards(f, call, k.key(f, "use the last commit through "+m.Name()+" (not nil-safe)"), 1, guardRe("the last commit exists", `^nonnil\(`+q(recv)+`\)$`))
+			}
+		}
+		c.Check(n >= 1 && nSafe >= 2, "consensus :: uses of State.LastCommit found", "-", "nil-safe and other uses", fmt.Sprintf("%d not nil-safe, %d nil-safe", n, nSafe))
+	})
+}
+
+func rawCallsOf(f *ssa.Function) []ssa.CallInstruction {
+	var out []ssa.CallInstruction
+	for _, b := range f.Blocks {
+		for _, in := range b.Instrs {
+			if call, ok := in.(ssa.CallInstruction); ok {
+				out = append(out, call)
+			}
+		}
+	}
+	return out
+}
